@@ -13,7 +13,7 @@ import warnings
 from harness import iocheck as io
 from harness.core import REPO
 from harness.gen.pddlgen import key_lower
-from harness.gen.pddltext import PddlText
+from harness.gen.pddltext import PddlText, corpus_texts
 from harness.props.c18 import features, report
 
 META = {
@@ -65,11 +65,13 @@ def run(ctx):
     io.tick(ctx, "proofs")
     rng = ctx.rng
     ntext = 30 if ctx.quick else 300
-    stats = {"generated_texts": 0, "shipped_pairs": 0, "both_accept": {"generated": 0, "shipped": 0},
+    stats = {"generated_texts": 0, "shipped_pairs": 0, "both_accept": {"generated": 0, "shipped": 0, "corpus": 0},
              "rejected_by": {"up": {}, "ai": {}}, "bisim": {"closed": 0, "bounded": 0}, "metric_kinds": {},
              "structurally_equal_metrics": 0, "forms": {}, "shipped_compared": [], "too_large": []}
     texts = [("shipped:" + n, d, p) for n, d, p in shipped_pairs()]
     stats["shipped_pairs"] = len(texts)
+    texts += corpus_texts()                      # hand-written corner texts
+    stats["corner_corpus"] = [t[0] for t in corpus_texts()]
     gen_texts = []
     for attempts in range(1, ntext * 5 + 1):     # candidates; consumed until `ntext` of them are accepted by both readers
         try:
@@ -97,7 +99,7 @@ def run(ctx):
         if len(res) < 2:
             continue
         P, Q = res["up"], res["ai"]
-        kind = "generated" if gen is not None else "shipped"
+        kind = "generated" if gen is not None else ("corpus" if label.startswith("corpus:") else "shipped")
         stats["both_accept"][kind] += 1
         if gen is not None:
             n_gen_ok += 1
@@ -122,7 +124,8 @@ def run(ctx):
             stats["too_large"].append({"text": label, "ground_instances": ninsts})
             continue
         depth, cap = budget(ninsts, len(P.initial_values), ctx.quick)
-        payload = {"text": label, "domain": dom if gen is not None else "(shipped file)", "pddl_problem": prob if gen is not None else "(shipped file)",
+        shipped = label.startswith("shipped:")
+        payload = {"text": label, "domain": "(shipped file)" if shipped else dom, "pddl_problem": "(shipped file)" if shipped else prob,
                    "problem": str(P)[:6000]}
         try:
             case, info = io.build_case(P, Q, key_lower, depth, cap, keyP=key_lower, split_intervals=True)
@@ -132,7 +135,7 @@ def run(ctx):
             stats["out_of_model"][k] = stats["out_of_model"].get(k, 0) + 1
             continue
         stats["metric_kinds"][info["metricP"] + "/" + info["metricQ"]] = stats["metric_kinds"].get(info["metricP"] + "/" + info["metricQ"], 0) + 1
-        if gen is None:
+        if label.startswith("shipped:"):
             stats["shipped_compared"].append({"text": label, "ground_instances": ninsts, "depth": depth, "cap": cap})
         cases.append(case)
         owners.append({"P": P, "Q": Q, "reader": "ai-vs-up", "payload": payload, "info": info, "feats": feats, "label": label,
